@@ -515,4 +515,174 @@ theorem dsepWalks_iff_paths (hac : Acyclic E) {x y : Nat} (hx : x ∉ Z) (hy : y
 
 end Main
 
+/-! ### the executable path enumeration of `Model/Dag.lean` -/
+
+section Exec
+variable {E : List Edge} {Z : List Nat}
+
+theorem blockedAt_iff {a b c : Nat} : blockedAt E Z a b c = true ↔ BlockedAt E Z a b c := by
+  unfold blockedAt BlockedAt hasEdge
+  by_cases h : (a, b) ∈ E ∧ (c, b) ∈ E
+  · have h' : (E.contains (a, b) && E.contains (c, b)) = true := by simp [h.1, h.2]
+    rw [if_pos h']
+    simp only [Bool.not_eq_true', Bool.or_eq_false_iff, List.contains_eq_mem, decide_eq_false_iff_not,
+      List.any_eq_false, mem_desc, decide_eq_true_eq]
+    constructor
+    · rintro ⟨h1, h2⟩; exact .inl ⟨h.1, h.2, h1, h2⟩
+    · rintro (⟨_, _, h1, h2⟩ | ⟨hn, _⟩)
+      · exact ⟨h1, h2⟩
+      · exact absurd h hn
+  · have h' : ¬ (E.contains (a, b) && E.contains (c, b)) = true := by simpa using h
+    rw [if_neg h']
+    simp only [List.contains_eq_mem, decide_eq_true_eq]
+    constructor
+    · intro hb; exact .inr ⟨h, hb⟩
+    · rintro (⟨h1, h2, _, _⟩ | ⟨_, hb⟩)
+      · exact absurd ⟨h1, h2⟩ h
+      · exact hb
+
+theorem pathBlocked_iff (p : List Nat) : pathBlocked E Z p = true ↔ Blocked E Z p := by
+  match p with
+  | [] => simp [pathBlocked, Blocked]
+  | [_] => simp [pathBlocked, Blocked]
+  | [_, _] => simp [pathBlocked, Blocked]
+  | a :: b :: c :: r =>
+    simp only [pathBlocked, Blocked, Bool.or_eq_true, blockedAt_iff, pathBlocked_iff (b :: c :: r)]
+
+theorem mem_nbrs {cur w : Nat} :
+    w ∈ dedup ((E.filter (fun e => e.1 == cur)).map (·.2) ++ (E.filter (fun e => e.2 == cur)).map (·.1)) ↔
+      Adj E cur w := by
+  simp only [mem_dedup, List.mem_append, List.mem_map, List.mem_filter, beq_iff_eq, Adj]
+  constructor
+  · rintro (⟨⟨a, b⟩, ⟨he, h1⟩, h2⟩ | ⟨⟨a, b⟩, ⟨he, h1⟩, h2⟩)
+    · simp only at h1 h2; subst h1; subst h2; exact .inl he
+    · simp only at h1 h2; subst h1; subst h2; exact .inr he
+  · rintro (h | h)
+    · exact .inl ⟨(cur, w), ⟨h, rfl⟩, rfl⟩
+    · exact .inr ⟨(w, cur), ⟨h, rfl⟩, rfl⟩
+
+/-- everything `simplePaths` lists is a walk from the current node to the target -/
+theorem simplePaths_sound {t : Nat} (fuel : Nat) : ∀ (cur : Nat) (vis p : List Nat),
+    p ∈ simplePaths E t fuel cur vis → IsWalk E p ∧ FromTo p cur t := by
+  induction fuel with
+  | zero => intro cur vis p h; simp [simplePaths] at h
+  | succ fuel ih =>
+    intro cur vis p h
+    unfold simplePaths at h
+    split at h
+    · rename_i hc
+      have hc' : cur = t := by simpa using hc
+      have : p = [t] := by simpa using h
+      subst this; subst hc'
+      exact ⟨trivial, rfl, rfl⟩
+    · simp only [List.mem_flatMap, List.mem_filter, List.mem_map] at h
+      obtain ⟨w, ⟨hw, _⟩, q, hq, rfl⟩ := h
+      obtain ⟨hq1, hq2, hq3⟩ := ih w (cur :: vis) q hq
+      match q, hq2 with
+      | a :: r, hq2 =>
+        have : a = w := by simpa using hq2
+        subst this
+        exact ⟨⟨mem_nbrs.mp hw, hq1⟩, rfl, by rw [List.getLast?_cons_cons]; exact hq3⟩
+
+/-- `simplePaths` lists every simple path that avoids the visited nodes and fits into the fuel -/
+theorem simplePaths_complete {t : Nat} (fuel : Nat) : ∀ (cur : Nat) (vis p : List Nat),
+    IsWalk E p → FromTo p cur t → p.Nodup → (∀ v ∈ p, v ∉ vis) → p.length ≤ fuel →
+    p ∈ simplePaths E t fuel cur vis := by
+  induction fuel with
+  | zero =>
+    intro cur vis p _ hft _ _ hlen
+    have : p = [] := List.length_eq_zero_iff.mp (Nat.le_zero.mp hlen)
+    subst this
+    simp [FromTo] at hft
+  | succ fuel ih =>
+    intro cur vis p hw hft hnd hvis hlen
+    obtain ⟨hh, hl⟩ := hft
+    unfold simplePaths
+    match p, hh with
+    | [a], hh =>
+      have h1 : a = cur := by simpa using hh
+      have h2 : a = t := by simpa using hl
+      subst h1; subst h2
+      simp
+    | a :: w :: r, hh =>
+      have h1 : a = cur := by simpa using hh
+      subst h1
+      rw [List.getLast?_cons_cons] at hl
+      have hat : a ≠ t := by
+        rintro rfl
+        have : a ∈ w :: r := List.mem_of_getLast? hl
+        exact (List.nodup_cons.mp hnd).1 this
+      rw [if_neg (by simpa using hat)]
+      simp only [List.mem_flatMap, List.mem_filter, List.mem_map]
+      have hwa : w ≠ a := fun h => (List.nodup_cons.mp hnd).1 (h ▸ List.mem_cons_self ..)
+      refine ⟨w, ⟨mem_nbrs.mpr hw.1, ?_⟩, w :: r, ?_, rfl⟩
+      · have := hvis w (by simp)
+        simp [hwa, this]
+      · apply ih w (a :: vis) (w :: r) hw.2 ⟨rfl, hl⟩ (List.nodup_cons.mp hnd).2
+        · intro v hv hv'
+          rcases List.mem_cons.mp hv' with h | h
+          · exact (List.nodup_cons.mp hnd).1 (h ▸ hv)
+          · exact hvis v (List.mem_cons_of_mem _ hv) h
+        · simpa using hlen
+
+/-- with enough fuel, `simplePaths … x []` lists exactly the simple paths from `x` to `t` -/
+theorem mem_simplePaths {t x : Nat} {fuel : Nat} {p : List Nat} (hlen : p.Nodup → IsWalk E p → p.length ≤ fuel) :
+    p ∈ simplePaths E t fuel x [] ∧ p.Nodup ↔ IsWalk E p ∧ FromTo p x t ∧ p.Nodup := by
+  constructor
+  · rintro ⟨h, hnd⟩
+    obtain ⟨h1, h2⟩ := simplePaths_sound fuel x [] p h
+    exact ⟨h1, h2, hnd⟩
+  · rintro ⟨h1, h2, hnd⟩
+    exact ⟨simplePaths_complete fuel x [] p h1 h2 hnd (by simp) (hlen hnd h1), hnd⟩
+
+/-- the executable `dsepPaths` decides `DSepPaths` once the fuel covers the longest simple path; given acyclicity and
+    endpoints outside `Z` it then also decides `DSepWalks` -/
+theorem dsepPaths_iff {x y n : Nat} (hlen : ∀ p, p.Nodup → IsWalk E p → p.length ≤ n + 1)
+    (hac : Acyclic E) (hx : x ∉ Z) (hy : y ∉ Z) :
+    dsepPaths n E x y Z = true ↔ DSepPaths E x y Z := by
+  unfold dsepPaths
+  rw [List.all_eq_true]
+  constructor
+  · intro h p hw hft hnd
+    exact (pathBlocked_iff p).mp (h p (simplePaths_complete _ x [] p hw hft hnd (by simp) (hlen p hnd hw)))
+  · intro h p hp
+    obtain ⟨h1, h2⟩ := simplePaths_sound _ x [] p hp
+    exact (pathBlocked_iff p).mpr ((dsepWalks_iff_paths hac hx hy).mpr h p h1 h2)
+
+/-- nodes of a walk with at least one step are end points of arrows -/
+theorem walk_nodes {p : List Nat} (hw : IsWalk E p) (hlen : 2 ≤ p.length) :
+    ∀ v ∈ p, ∃ e ∈ E, v = e.1 ∨ v = e.2 := by
+  match p, hw, hlen with
+  | [a, b], hw, _ =>
+    intro v hv
+    simp only [List.mem_cons, List.not_mem_nil, or_false] at hv
+    rcases hw.1 with h | h <;> rcases hv with rfl | rfl
+    · exact ⟨_, h, .inl rfl⟩
+    · exact ⟨_, h, .inr rfl⟩
+    · exact ⟨_, h, .inr rfl⟩
+    · exact ⟨_, h, .inl rfl⟩
+  | a :: b :: c :: r, hw, _ =>
+    intro v hv
+    rcases List.mem_cons.mp hv with rfl | hv
+    · rcases hw.1 with h | h
+      · exact ⟨_, h, .inl rfl⟩
+      · exact ⟨_, h, .inr rfl⟩
+    · exact walk_nodes hw.2 (by simp) v hv
+
+/-- a simple path in (a sub-list of) the arrows of a well-formed graph has at most as many nodes as the graph (+1
+    covers the one-node path of a node that is not in the graph) -/
+theorem simple_path_length {G : Graph} (hwf : G.WF) {E' : List Edge} (hE : ∀ e ∈ E', e ∈ G.edges) {p : List Nat}
+    (hnd : p.Nodup) (hw : IsWalk E' p) : p.length ≤ G.nodes.length + 1 := by
+  by_cases hlen : 2 ≤ p.length
+  · have hsub : p ⊆ G.nodes := by
+      intro v hv
+      obtain ⟨e, he, h⟩ := walk_nodes hw hlen v hv
+      rcases h with rfl | rfl
+      · exact (hwf e (hE e he)).1
+      · exact (hwf e (hE e he)).2
+    exact Nat.le_succ_of_le (List.subperm_of_subset hnd hsub).length_le
+  · omega
+
+end Exec
+
 end ZV.Dag
